@@ -1056,6 +1056,10 @@ class Interp:
         # pending orphan expunge cascades over 'children' under cascade=all: keep it to leaves
         if self.U.casc_orphan and c.state == "P" and self.U.casc_expunge and self.model.children_of(c):
             return False
+        if self.U.casc_orphan and c.state in "TP" and any(q.fav is c and not q.dead for q in self.model.objs):
+            # the pending child would be expunged while a holder still names it as favourite: the holder would then
+            # reference an object outside the session (its row keeps the old value): the application clears it first
+            return False
         if self.U.casc_orphan and c.state == "S" and c.parent is not None:
             # orphaning is generated for flushed associations only (append + remove inside one
             # flush has no net history; whether the row is then an orphan is not specified)
